@@ -541,16 +541,84 @@ fn replay_json(a: &RunArgs, rule: &str, detail: &str, run: u64, steps: &[Step], 
     ])
 }
 
+/// Run a candidate trace in a FRESH process. Returns Some(log hash) if the rule fires at the last step.
+fn fresh_process_fails(exe: &Path, a: &RunArgs, steps: &[Step], rule: &str, aborted: bool) -> Option<u64> {
+    let p = a.tmp.join(format!("{}-{}-fresh-{}.json", a.prop.id(), feature_tag(), std::process::id()));
+    let j = replay_json(a, rule, "", 0, steps, 0, &[], aborted);
+    std::fs::write(&p, j.compact()).ok()?;
+    let out = Command::new(exe).arg("replay").arg(&p).stdin(Stdio::null()).stdout(Stdio::piped()).stderr(Stdio::null()).output().ok()?;
+    let _ = std::fs::remove_file(&p);
+    use std::os::unix::process::ExitStatusExt;
+    if aborted {
+        return if out.status.signal().is_some() { Some(0) } else { None };
+    }
+    if out.status.code() != Some(1) {
+        return None;
+    }
+    let text = String::from_utf8_lossy(&out.stdout).to_string();
+    let line = text.lines().find(|l| l.starts_with("REPRODUCED"))?;
+    let h = line.split("log_hash=").nth(1)?.trim();
+    u64::from_str_radix(h, 16).ok()
+}
+
+/// Greedy minimisation in which every candidate runs in a fresh process (used when the code under
+/// test turns out to keep state outside the simulated device, so that in-process re-execution lies).
+fn minimise_isolated(exe: &Path, a: &RunArgs, steps: Vec<Step>, rule: &str, aborted: bool) -> Vec<Step> {
+    let t0 = Instant::now();
+    let mut budget = 200i64;
+    let mut cur = steps;
+    let mut ok = |cand: &[Step]| -> bool {
+        if budget <= 0 || t0.elapsed() > Duration::from_secs(60) || cand.is_empty() {
+            return false;
+        }
+        budget -= 1;
+        fresh_process_fails(exe, a, cand, rule, aborted).is_some()
+    };
+    let mut chunk = (cur.len() / 2).max(1);
+    while cur.len() > 1 {
+        let mut i = 0;
+        let mut any = false;
+        while i + 1 < cur.len() {
+            let end = (i + chunk).min(cur.len() - 1);
+            let mut cand = cur[..i].to_vec();
+            cand.extend_from_slice(&cur[end..]);
+            if ok(&cand) {
+                cur = cand;
+                any = true;
+            } else {
+                i = end;
+            }
+        }
+        if chunk == 1 && !any {
+            break;
+        }
+        chunk = (chunk / 2).max(1);
+    }
+    cur
+}
+
 /// Minimise, write the replay file, replay it in a fresh process, and only then report.
 fn finalise_violation(exe: &Path, a: &RunArgs, v: Violation) -> Result<(Violation, PathBuf), String> {
     let steps = steps_from_json(&v.steps).ok_or_else(|| "harness: violation trace does not parse".to_string())?;
-    // the worker's finding must reproduce in this process before anything else
-    if !still_fails(exe, a, &steps, &v.rule, v.aborted) {
-        return Err(format!("finding rule={} run={} did not reproduce when re-executed; not reported", v.rule, v.run));
+    // the worker's finding must reproduce in a fresh process before anything else
+    if v.rule != "slow" && fresh_process_fails(exe, a, &steps, &v.rule, v.aborted).is_none() {
+        return Err(format!("finding rule={} run={} did not reproduce when its run was re-executed alone in a fresh process (it may depend on state the code under test keeps outside the simulated device across runs); not reported", v.rule, v.run));
     }
-    let min = minimise(exe, a, steps, &v.rule, v.aborted);
+    if v.rule == "slow" && !still_fails(exe, a, &steps, &v.rule, v.aborted) {
+        return Err(format!("finding rule=slow run={} did not reproduce; not reported", v.run));
+    }
+    let mut min = minimise(exe, a, steps.clone(), &v.rule, v.aborted);
+    let mut isolated = false;
+    if v.rule != "slow" && !v.aborted && fresh_process_fails(exe, a, &min, &v.rule, v.aborted).is_none() {
+        // in-process minimisation was misled (hidden state in the code under test): redo it with fresh processes
+        min = minimise_isolated(exe, a, steps, &v.rule, v.aborted);
+        isolated = true;
+    }
     let (detail, log_hash, lines) = if v.aborted {
         (v.detail.clone(), 0, vec![])
+    } else if isolated {
+        let h = fresh_process_fails(exe, a, &min, &v.rule, false).ok_or_else(|| "harness: isolated minimisation lost the failure".to_string())?;
+        (format!("{} [minimised with fresh processes: the code under test keeps state outside the simulated device]", v.detail), h, vec![])
     } else {
         let (res, log, _) = run_trace(&min, a.prop, true);
         match res {
